@@ -66,6 +66,15 @@ func (it *interp) analyzeLoop(f frameID, fn *ssa.Function, L *loop, ins []edgeIn
 		entry = it.reduce(entry)
 		it.K = saveK
 	}
+	if n := it.constTripBound(f, L, entry); n > 0 {
+		exits, ok := it.unrollLoop(f, fn, L, entry, n)
+		if os.Getenv("RTPCHECK_LOOPDBG") != "" {
+			fmt.Printf("UNROLL %s b%d frame %d bound %d ok=%v\n", fn.Name(), head.Index, f, n, ok)
+		}
+		if ok {
+			return exits
+		}
+	}
 	memoKey := fmt.Sprintf("%d|%p", f, head)
 	for i, d := range entry.ds {
 		if d.tags == nil {
@@ -806,4 +815,210 @@ func firstTag(t string) string {
 		return ""
 	}
 	return t
+}
+
+// ---- full unrolling of loops with a small constant trip count -------------------------------------
+//
+// A loop whose exit test compares a counter that starts at a constant and is stepped by one with a bound
+// that is the same small constant on every path that enters the loop (a range over a fixed-size table, `i < 3`)
+// is interpreted iteration by iteration instead of through an inductive invariant: exact, and it keeps
+// memory cells that a callee advances in every iteration (a bit cursor behind a pointer) precise.
+
+const maxUnroll = 8
+
+// constTripBound returns K+1 (an upper bound on the number of times the head is reached) when the loop has
+// that shape, 0 otherwise.
+func (it *interp) constTripBound(f frameID, L *loop, entry *state) int {
+	// Off by default: on this code base it buys nothing that the invariant-based analysis does not already
+	// prove (the VLA loops get five times slower), and the two refactorings it was written for (a bit cursor
+	// advanced by a callee inside a three-step table loop) are still not proved in the payloader's context,
+	// where the per-iteration projection drops the cursor's exact value. RTPCHECK_UNROLL=1 enables it.
+	if os.Getenv("RTPCHECK_UNROLL") == "" || len(L.kids) > 0 {
+		return 0
+	}
+	inLoop := func(v ssa.Value) bool {
+		in, ok := v.(ssa.Instruction)
+		return ok && in.Block() != nil && L.blocks[in.Block()]
+	}
+	counter := func(v ssa.Value) bool { // a head phi with a constant start, or such a phi plus one
+		if b, ok := v.(*ssa.BinOp); ok && b.Op == token.ADD {
+			if k, isC := core.ConstInt(b.Y); isC && k == 1 {
+				v = b.X
+			}
+		}
+		p, ok := v.(*ssa.Phi)
+		if !ok || p.Block() != L.head {
+			return false
+		}
+		for i, pr := range L.head.Preds {
+			if !L.blocks[pr] {
+				if _, isC := core.ConstInt(p.Edges[i]); !isC {
+					return false
+				}
+			}
+		}
+		return true
+	}
+	best := 0
+	for b := range L.blocks {
+		if len(b.Instrs) == 0 {
+			continue
+		}
+		iff, ok := b.Instrs[len(b.Instrs)-1].(*ssa.If)
+		if !ok {
+			continue
+		}
+		// the test leaves the loop on one side
+		if L.blocks[b.Succs[0]] == L.blocks[b.Succs[1]] {
+			continue
+		}
+		cmp, ok := iff.Cond.(*ssa.BinOp)
+		if !ok || cmp.Op != token.LSS || !counter(cmp.X) {
+			continue
+		}
+		bound := cmp.Y
+		if inLoop(bound) {
+			// len(x) recomputed in the loop of a value defined outside it
+			c, ok := bound.(*ssa.Call)
+			if !ok || len(c.Call.Args) != 1 || inLoop(c.Call.Args[0]) {
+				continue
+			}
+			if bi, ok := c.Call.Value.(*ssa.Builtin); !ok || bi.Name() != "len" {
+				continue
+			}
+		}
+		k := int64(-1)
+		for _, d := range entry.ds {
+			var l *lin.Lin
+			if c, ok := bound.(*ssa.Call); ok && inLoop(bound) {
+				l, _ = it.lenCap(d, f, c.Call.Args[0])
+			} else {
+				l = it.intLin(d, f, bound)
+			}
+			cv, isC := l.ConstVal()
+			if !isC || cv < 1 || cv > maxUnroll || (k >= 0 && cv != k) {
+				k = -2
+				break
+			}
+			k = cv
+		}
+		if k > 0 && int(k)+1 > best {
+			best = int(k) + 1
+		}
+	}
+	return best
+}
+
+// unrollLoop interprets the loop iteration by iteration; ok=false when back edges are still taken after max
+// head visits (the caller then falls back to the invariant-based analysis). The first pass does not record
+// obligations; when it shows the loop to be bounded the interpretation is repeated with recording.
+func (it *interp) unrollLoop(f frameID, fn *ssa.Function, L *loop, entry *state, max int) (map[edgeKey]*state, bool) {
+	// values computed by one iteration: instructions of the loop's blocks other than the head's phis, and
+	// everything in frames created at call sites inside the loop
+	headPhi := map[ssa.Value]bool{}
+	for _, in := range L.head.Instrs {
+		if p, ok := in.(*ssa.Phi); ok {
+			headPhi[p] = true
+		}
+	}
+	isDead := func(k valKey) bool {
+		if k.v == nil {
+			return false
+		}
+		fr := k.f
+		for i := 0; i < 64 && fr >= 0 && int(fr) < len(it.finfo); i++ {
+			if fr == f {
+				break
+			}
+			par := it.finfo[fr].parent
+			if par == f {
+				// a frame created under f: dead when its call site is in the loop
+				site := it.finfo[fr].site
+				return site != nil && site.Block() != nil && L.blocks[site.Block()]
+			}
+			if par == fr || par < 0 {
+				return false
+			}
+			fr = par
+		}
+		if k.f != f {
+			return false
+		}
+		if headPhi[k.v] {
+			return false
+		}
+		var in ssa.Instruction
+		switch x := k.v.(type) {
+		case tupleElem:
+			in, _ = x.Value.(ssa.Instruction)
+		case fieldKey:
+			in, _ = x.Value.(ssa.Instruction)
+		default:
+			in, _ = k.v.(ssa.Instruction)
+		}
+		return in != nil && in.Parent() == fn && in.Block() != nil && L.blocks[in.Block()]
+	}
+	run := func() (map[edgeKey]*state, bool) {
+		exits := map[edgeKey]*state{}
+		hs := entry.clone()
+		for iter := 0; iter <= max; iter++ {
+			ro := it.runRegion(f, fn, L, L.head, hs)
+			if os.Getenv("RTPCHECK_LOOPDBG") == "3" {
+				nb := 0
+				for _, be := range ro.backs {
+					nb += len(be.st.ds)
+				}
+				ne := 0
+				for _, st := range ro.exits {
+					ne += len(st.ds)
+				}
+				fmt.Printf("  unroll %s b%d iter %d: head=%d backs=%d exits=%d record=%v\n", fn.Name(), L.head.Index, iter, len(hs.ds), nb, ne, it.record)
+				for _, d := range hs.ds {
+					for k, c := range d.mem {
+						if c != nil && c.val.kind == kInt && c.val.lin != nil {
+							fmt.Printf("      cell %s = %s\n", k, c.val.lin.String(it.at.name))
+						}
+					}
+				}
+			}
+			for k, st := range ro.exits {
+				if st.empty() {
+					continue
+				}
+				if cur, ok := exits[k]; ok {
+					exits[k] = it.joinStates([]*state{cur, st})
+				} else {
+					exits[k] = st
+				}
+			}
+			var sts []*state
+			for _, be := range ro.backs {
+				if !be.st.empty() {
+					ns := it.applyPhis(be.st, f, be.from, L.head)
+					for _, d := range ns.ds {
+						it.projectIter(d, isDead)
+					}
+					sts = append(sts, ns)
+				}
+			}
+			if len(sts) == 0 {
+				return exits, true
+			}
+			hs = it.joinStates(sts)
+			if hs.empty() {
+				return exits, true
+			}
+		}
+		return nil, false
+	}
+	saveRec := it.record
+	it.record = false
+	it.retStack = append(it.retStack, nil)
+	_, ok := run()
+	it.retStack = it.retStack[:len(it.retStack)-1]
+	it.record = saveRec
+	if !ok {
+		return nil, false
+	}
+	return run()
 }
